@@ -8,7 +8,7 @@ CHECKS = {
          "All reachable states of a 10 (quick) / 14 (thorough) triple universe x every add/remove batch of size 0-2, plus the store-level state space (2 names, stale handles) to fixpoint; after every transition Exist for every universe triple, the full listing, graph names and error flags are compared with the set model.",
          "Bounded universe and batch size; identity judged structurally via exported accessors; one goroutine.", "3/C01"),
  "C02": ("model_checking", "explicit-state BFS over all subsets of a triple universe; in every state all ten lookup methods over an argument grid compared with a scan of the set model",
-         "Every reachable content of a 7-8 triple universe (singleton and 2-batch add/remove transitions replayed on a fresh graph), and in every state all ten lookup methods over stored and non-stored subjects, predicates (same id immutable / @T1 / @T2 / absent anchor / absent id) and objects, default options; results as multisets, channel closed, no error.",
+         "Every reachable content of a 7-8 triple universe (singleton and 2-batch add/remove transitions replayed on a fresh graph), and in every state all ten lookup methods over stored and non-stored subjects, predicates (same id immutable / @T1 / @T2 / absent anchor / absent id) and objects, default options; results as multisets, channel closed, no error. Plus every unordered pair of a shared near-collision value universe (178k pairs) in every position of a triple through add x / add y / remove x with the listing and all ten lookups asked with either value after each step.",
          "Bounded universe; reference lookup = filter by structural component equality (verif/lookup); default lookup options only (C09 owns options).", "3/C02"),
  "C03": ("model_checking", "bounded-exhaustive enumeration of query shapes x graph contents against a nested-loop reference evaluator",
          "All one-clause shapes (3 subjects x 10 predicate terms x 8 object terms, every sharing pattern of binding names, every single extraction modifier, 6 global time bounds; pairs of modifiers in thorough) x every subset of <= 3 triples (thorough: all 256 subsets) of an 8-triple universe, one and two FROM graphs (disjoint and overlapping); all two-clause shapes (146k) x 10 designed graphs. Row multisets compared with bqlm.Solve (one row per distinct assignment).",
@@ -23,7 +23,7 @@ CHECKS = {
          "UUID(x)=UUID(y) iff same kind and structurally equal, and Triple.Equal likewise, for all ordered pairs within each value family of a 1.6k (8.9k) value universe built from near-collisions; UUID defined on all int64/float64 boundary values; 10 concurrent scenarios x every schedule with <= 3 (6) deviations, each result equal to the sequential one; table also recomputed by 8 free-running goroutines and by a re-executed process.",
          "Schedule part: triple/node is not instrumented (its pool is the real one); second process = same binary on this machine.", "3/C06"),
  "C07": ("model_checking", "stateless model checking of the real (AST-instrumented) storage/memory, planner and table code under a cooperative scheduler: unbounded exploration with sleep sets per scenario plus deviation-bounded exploration without reduction; histories checked with porcupine against the set model",
-         "9 scenarios x result-channel capacity 0/1 (2-7 threads; S6 = BQL INSERT || 2-clause SELECT). S1, S2, S3a, S4, S5a, S5b, S7: every Mazurkiewicz trace of the synchronisation operations and every schedule with <= 2 (quick) / <= 3 (thorough) deviations unreduced; S3 (shared LookupOptions) <= 3/4 deviations; S6 <= 1/2. On every execution: no panic / deadlock / leak / horizon, close exactly once also on error paths, batch atomicity, linearizability (porcupine), options unchanged before / during / after the call.",
+         "15 scenario families x result-channel capacity 0/1 (2-25 threads; S6 = BQL INSERT || 2-clause SELECT, S6b CONSTRUCT || DROP, S6c SHOW || CREATE || DROP, S8 with sync.Pool modelled, S9 removal of triples never stored; per-lookup error-path and option scenarios). S1, S2, S3a, S4, S5a, S5b, S7: every Mazurkiewicz trace of the synchronisation operations and every schedule with <= 2 (quick) / <= 3 (thorough) deviations unreduced; S3 (shared LookupOptions) <= 3/4 deviations; S6 <= 1/2. On every execution: no panic / deadlock / leak / horizon, close exactly once also on error paths, batch atomicity, linearizability (porcupine), options unchanged before / during / after the call.",
          "Interleaving granularity is synchronisation operations; data-race freedom is validated, not decided, by a free-running -race companion. The explored program is the instrumented copy (map capacity hints dropped, map order ascending). RWMutex, WaitGroup and channel semantics are a transcription of Go's.", "3/C07"),
  "C08": ("model_checking", "stateless model checking of the real, AST-instrumented run.BQL pipeline: one controlled execution per (statement text, fresh store, chanSize, bulkSize) on the default schedule with global oracles (panic in any thread incl. log.Fatalf, deadlock, leak after return, tick/step horizon), every schedule with <= 1 deviation on every K-th execution; input spaces enumerated exhaustively",
          "S1 every token sequence <= 3 over the 55 kinds and every viable grammar prefix <= 6 (9) extended by each kind, with and without ';'; S2 every grammar sentence <= 14 (15) tokens, every single-token mutant (delete / duplicate / truncate / replace by each kind) and every lexeme-level edit; S3 every byte string <= 3 (4) over 18 punctuation bytes; S4 a 66-statement corpus x chanSize {0,1,3} x bulkSize {0,1,1000}; S5 every mutant of the corpus; against empty, named-empty and populated stores. 0.41 M (3.9 M) executions.",
@@ -32,7 +32,7 @@ CHECKS = {
          "All 64 contents of a 6-triple temporal universe; in each the grid lower/upper in {nil,T0,T1,T2} (incl. lower>upper, bounds equal to anchors) x filter {none, latest, isImmutable, isTemporal} x field {predicate, object} + LatestAnchor x (MaxElements, Offset) in {0..3}^2 x ten methods x an argument grid.",
          "Bounded universe; latitude: Field=subject and LatestAnchor+FilterOptions may error; MaxElements<=0 means unpaged.", "3/C09"),
  "C10": ("model_checking", "bounded-exhaustive enumeration of (base clause, OPTIONAL clause[s], binding sharing pattern, graph) against the reference evaluator (left outer join)",
-         "Every one-clause base shape x every one-clause shape as OPTIONAL clause under every sharing pattern of names (128k shapes) x 5-8 designed graphs; every single extraction modifier on the optional clause (70k shapes); two OPTIONAL clauses in sequence over a reduced vocabulary (320k shapes).",
+         "Every one-clause base shape x every one-clause shape as OPTIONAL clause under every sharing pattern of names (128k shapes) x 5-8 designed graphs; every single extraction modifier on the optional clause (70k shapes); two OPTIONAL clauses in sequence over a reduced vocabulary (320k shapes); fully specified OPTIONAL clauses with one and with two join keys (26k shapes); a time bound taken from a binding followed by an OPTIONAL clause over a temporal predicate (96 shapes).",
          "Latitude: inside OPTIONAL an inapplicable extraction may mean 'no match' or 'match with NULL' (docs/bql.md vs C03), both accepted; joining on a binding an earlier OPTIONAL may have left NULL is not generated.", "3/C10"),
  "C11": ("model_checking", "bounded-exhaustive enumeration of aggregate queries x graph subsets against the reference evaluator (grouping by structural value identity)",
          "7 patterns whose columns mix value kinds x every choice of 1-2 grouping bindings (with/without alias) x every combination of count / count distinct / sum on the other bindings (786 queries) x 340 (thorough: 16k) subsets of a 10 (14) triple universe incl. empty results and singleton groups.",
@@ -50,19 +50,19 @@ CHECKS = {
          "All strings of <= 4 (5) letters over a 25-letter alphabet whose letters include the delimiter tokens, focused alphabets to length 5-8, every prefix / suffix / deletion / duplication / injection of 45 (200) printed forms, into node, predicate, literal (default and bounded), object and triple parsers; reader: all sequences of <= 3 (4) lines over 9-10 line kinds.",
          "Random strings are replaced by exhaustive short strings and mutations; termination observed as return.", "3/C15"),
  "C16": ("model_checking", "bounded-exhaustive enumeration of short strings over a delimiter alphabet judged by a structural token-stream spec plus metamorphic relations; termination and channel closure decided by a step counter and exit hook in an instrumented copy of lexer.go",
-         "Every string of <= 4 (5) letters over 29 letters at channel capacities 0,1,2,7: one terminal EOF/ERROR, token texts at increasing non-overlapping offsets, channel closed, bounded steps, identical streams at all capacities; whitespace and letter-case metamorphic relations; printed forms of values lex to one token.",
+         "Every string of <= 4 (5) letters over 29 letters at channel capacities 0,1,2,7: one terminal EOF/ERROR, token texts at increasing non-overlapping offsets, channel closed, bounded steps, identical streams at all capacities; whitespace and letter-case metamorphic relations; a keyword directly followed by a token that does not start with a letter lexes as with a blank; printed forms of values (also text spanning lines) lex to one token.",
          "Bounded alphabet and length; no token prediction; lexer || consumer schedule exploration not part of this check.", "3/C16"),
  "C17": ("model_checking", "complete graph search over the finite grammar tables; per alternative a witness statement replayed on the real parser with recording hooks",
          "BQL() and SemanticBQL() (73 rules, 178 alternatives each): disjoint first tokens, at most one empty alternative and last, every symbol defined / reachable / productive, no left recursion, same shape in both tables; 432 witnesses (1.3k-12k parser traces) accepted with the recorded alternative sequence equal to the table derivation.",
          "Finite table checked completely; one canonical lexeme per token kind.", "3/C17"),
  "C18": ("model_checking", "BFS over parser configurations (viable token prefixes) against an independent table-driven recogniser; sentence enumeration with all single-token mutations; exhaustive (A then B) histories on one parser compared with a fresh parser",
-         "Every viable prefix of length < 12 (14) extended by each of the 55 token kinds (1.2M / 10M sequences); every statement of <= 14 tokens accepted, all single-token deletions / insertions / substitutions classified; 48-statement corpus x 561 first statements (every token prefix of every corpus statement) parsed in sequence on one SemanticBQL parser, canonical Statement dump compared.",
+         "Every viable prefix of length < 12 (14) extended by each of the 55 token kinds (1.2M / 10M sequences); every statement of <= 14 tokens accepted, all single-token deletions / insertions / substitutions classified; 48-statement corpus x 561 first statements (every token prefix of every corpus statement) parsed in sequence on one SemanticBQL parser, canonical Statement dump (including the verdicts of the HAVING evaluator on probe rows) compared; the same with a collection in between and the second statement allocated at the address of the first.",
          "One canonical lexeme per kind, confirmed by re-lexing; recogniser validated against the repository's accept/reject tables.", "3/C18"),
  "C20": ("fault_enumeration", "fault enumeration by stateless model checking: the instrumented planner / table / semantic / memoization / memory code runs under the cooperative scheduler behind a fault-injecting storage.Store/Graph wrapper; every driver call of each statement's fault-free run fails in every mode; each plan explored with deviation-bounded scheduling without reduction",
          "45 statements (SELECT 1-3 clauses over every driver-call kind with OPTIONAL / GROUP BY / ORDER BY / HAVING / LIMIT, 1/2/4 processors, through the memoizing store; INSERT / DELETE into 1-2 graphs; CONSTRUCT / DECONSTRUCT with bulkSize 1 and 1000, ';' reification, 2 output graphs; SHOW, CREATE, DROP): 191 driver calls of 14 methods, 315 fault points (error before any element, after j elements, on write, from Graph / GraphNames / NewGraph / DeleteGraph), 1292 fault pairs. Quick: every fault point on the default schedule and on every schedule with exactly 1 deviation, every pair on the default schedule; thorough: pairs x 1 deviation and points x 2 deviations as far as the budget allows. Oracle: non-nil error, no panic / deadlock / leak / horizon, memoized repeat returns the fault-free rows.",
          "Fault points are the calls of the fault-free run; the faulty driver honours the contract (closes, yields, returns); one statement per execution; granularity = synchronisation operations.", "3/C20"),
  "C19": ("model_checking", "explicit-state BFS over (content, per-handle cache entries) with every transition replayed on a fresh memoized store, every read through every handle compared with the wrapped store; concurrent part (cmd/c19c): stateless model checking of the instrumented memoization + memory code, sleep sets (exhaustive) plus deviation-bounded runs",
-         "Handles h1=NewGraph, h2,h3=Graph of the same graph through the memoization wrapper; add/remove of 3 triples through any handle; all lookups, Exist, Triples x 6 option values (paging offsets, window, latest) through any handle; BFS to depth 4-5 (6-7 thorough) with canonical-state deduplication.",
+         "Handles h1=NewGraph, h2,h3=Graph of the same graph through the memoization wrapper; add/remove of 3 triples through any handle; all lookups, Exist, Triples x 6 option values (paging offsets, window, latest) through any handle; BFS to depth 4-5 (6-7 thorough) with canonical-state deduplication; lookups given up after their first result (context cancelled) as an operation; every sequence <= 5 (6) of store-level operations (new, delete, get, add, remove, sweeps, names) against a plain memory store; every pair of a shared near-collision value universe through a second handle.",
          "Concurrent part: 16 scenarios (writer, 1-2 readers, optional second writer on one memoizer; miss path, hit path, handles obtained during a write, reads placed inside the forwarded write): every Mazurkiewicz trace for the 2-operation scenarios plus every schedule with <= 2-3 (3-4) deviations; oracle = the three clauses of the property against a recording layer around the wrapped store. One graph, 3 triples, <= 4 operations.", "3/C19"),
 }
 NOT_YET = "check not built yet in this round (work in progress; see DESIGN.md section 3)"
@@ -77,7 +77,7 @@ def main():
             "thorough_cmd": "./vcheck %s thorough" % pid,
             "evidence_file": "/verif/evidence/%s.json" % pid,
             "replay_cmd_template": "./vcheck %s --replay {path}" % pid,
-            "engine": "vsched" if pid in ("C07","C08","C20") else ("xstate+vsched" if pid in ("C14","C19") else "xstate"),
+            "engine": "vsched" if pid in ("C07","C08","C20") else ("xstate+vsched" if pid in ("C14","C19","C06") else "xstate"),
             "level_claimed": {"category": cat, "text": text, "design_ref": "DESIGN.md section " + ref},
             "level_note": note,
             "technique": tech,
